@@ -14,10 +14,9 @@ CFG = {
                   "tokens outside strings in order (structural_list_eq); structural_index and structural_pos are mutually "
                   "inverse (index_pos_inverse); find_close at a container's open bracket returns its own close bracket "
                   "(find_close_eq); skip_value at a value's first byte returns the byte after its last (skip_value_eq). "
-                  "find_close_eq / skip_value_eq are stated for a value occupying a token segment d.toks = A ++ v.toks ++ B "
-                  "(every sub-value does, by construction of the renderer; that enumeration itself is not a Lean theorem) "
-                  "and skip_value_eq for numbers assumes the next byte is not in [0-9.eE+-] (true after any value in a "
-                  "document). Tie: every model function is diffed against the Rust implementation on generated documents.",
+                  "Both quantify over Doc.occs, the enumeration of every value of the document with its token context "
+                  "(doc_occs: each occupies a token segment and is followed by a non-number byte). "
+                  "Tie: every model function is diffed against the Rust implementation on generated documents.",
     "level_note": "Callees taken at their proved specifications: select_in_word (C02), BalancedParens::find_close (C04), "
                   "simple-cursor index = reference (C05).",
     "technique": "Lean 4 proof over an executable model of SimpleJsonIndex; differential correspondence vs compiled model",
